@@ -3,12 +3,23 @@ import json, glob, os
 V = os.path.dirname(os.path.dirname(os.path.abspath(__file__)))
 print('| id | files | what the change does (agent\'s summary, shortened) | our check |')
 print('|----|-------|------------------------------------------------------|-----------|')
-for d in sorted(glob.glob(os.path.join(V, 'seeded', '*'))):
+import re, subprocess
+try:
+    HEAD = subprocess.run(['git', '-C', '/repo', 'log', '-1', '--format=%h'], capture_output=True, text=True).stdout.strip()
+except Exception:
+    HEAD = ''
+def _key(d):
+    b = os.path.basename(d); mm = re.match(r'C(\d+)-(\d+)', b)
+    return (int(mm.group(1)), int(mm.group(2))) if mm else (999, 0)
+for d in sorted([x for x in glob.glob(os.path.join(V, 'seeded', 'C*')) if os.path.exists(os.path.join(x, 'meta.json'))], key=_key):
     m = json.load(open(os.path.join(d, 'meta.json')))
     oc = m.get('our_check', {})
     line = oc.get('line', '') or ''
     res = 'failing input' if ('VIOLATION' in line and 'no-failing-input-found' not in line) else ('no-failing-input-found' if 'VIOLATION' in line else oc.get('quick', '?'))
     if oc.get('history'):
         res += ' (after strengthening: ' + oc['history'][:160].replace('|', '/') + '…)'
+    base = m.get('applies_to_repo_commit')
+    if base and HEAD and base != HEAD:
+        res += ' [stored patch applies to /repo ' + base + ', before later fix: commits]'
     s = (m.get('summary') or '').replace('\n', ' ').replace('|', '/')
     print('| %s | %s | %s | %s |' % (os.path.basename(d), ', '.join(os.path.basename(f) for f in (m.get('files_changed') or [])), s[:260] + ('…' if len(s) > 260 else ''), res))
